@@ -1,6 +1,6 @@
-\* MaxWord = 7807: 2^63-1-7807 is divisible by 3000 = lcm(1,2,3,4,1000)
+\* MaxWord = 22807: 2^63-1-7807 is divisible by 3000 = lcm(1,2,3,4,1000)
 CONSTANTS
-  MaxWord = 7807
+  MaxWord = 22807
   Maxes = {1, 2, 3, 4, 5, 8, 10, 1000}
   K = 6
 INIT Init
